@@ -395,6 +395,10 @@ func c13(args []string) int {
 	}
 	close(jobs)
 	wg.Wait()
+	// ---- leg 2: differential locality on generated declarations (no expectations needed): the diagnostics
+	// of a declaration are the same alone, before and after any other declaration of the scale family
+	c13Pairs(ev, tier)
+
 	ev.Set("example_files", nfiles)
 	ev.Set("variants_run", ran)
 	ev.Set("variants_dropped_ill_typed", dropped)
@@ -405,4 +409,118 @@ func c13(args []string) int {
 	ev.Cap("function permutations are complete up to 5 functions per file (6 thorough); beyond that rotations, the reversal and adjacent transpositions")
 	_ = progenum.Apply
 	return ev.Finish()
+}
+
+func c13Pairs(ev *evidence.Run, tier string) {
+	pool := progenum.ScaleFuncs()
+	type rel struct {
+		line, col int
+		checker   string
+		text      string
+	}
+	lineCount := func(s string) int { return strings.Count(s, "\n") + 1 }
+	analyse := func(set *harness.Set, chunks []progenum.ScaleFunc) (map[int][]string, bool) {
+		src := "package vpkg\n"
+		starts := make([]int, len(chunks))
+		line := 2
+		for i, c := range chunks {
+			src += "\n" + c.Src + "\n"
+			starts[i] = line + 1
+			line += 1 + lineCount(c.Src)
+		}
+		pk := harness.LoadOne(src)
+		defer pk.Release()
+		if len(pk.Errs) > 0 {
+			return nil, false
+		}
+		d, crashes := set.VisitAll(pk)
+		if len(crashes) > 0 {
+			return nil, false
+		}
+		out := map[int][]string{}
+		for _, x := range d {
+			ci := -1
+			for i := range chunks {
+				if x.Line >= starts[i] && x.Line < starts[i]+lineCount(chunks[i].Src) {
+					ci = i
+				}
+			}
+			out[ci] = append(out[ci], fmt.Sprintf("+%d:%d: %s: %s", x.Line-startsAt(starts, ci), x.Col, x.Checker, x.Text))
+		}
+		for k := range out {
+			sort.Strings(out[k])
+		}
+		return out, true
+	}
+	// baselines
+	base := make([][]string, len(pool))
+	ok := make([]bool, len(pool))
+	{
+		set, err := harness.NewSet(harness.Infos(nil), "")
+		if err != nil {
+			panic(err)
+		}
+		for i, f := range pool {
+			m, good := analyse(set, []progenum.ScaleFunc{f})
+			ok[i] = good
+			base[i] = m[0]
+		}
+	}
+	type pair struct{ i, j int }
+	jobs := make(chan pair, 256)
+	var wg sync.WaitGroup
+	for w := 0; w < 16; w++ {
+		wg.Add(1)
+		go func() {
+			defer wg.Done()
+			set, err := harness.NewSet(harness.Infos(nil), "")
+			if err != nil {
+				panic(err)
+			}
+			for p := range jobs {
+				m, good := analyse(set, []progenum.ScaleFunc{pool[p.i], pool[p.j]})
+				ev.Eval(1)
+				if !good {
+					continue
+				}
+				ev.Nontrivial(fmt.Sprintf("pair|%s|%s", pool[p.i].ID, pool[p.j].ID))
+				for pos, idx := range []int{p.i, p.j} {
+					if !equalStrings(m[pos], base[idx]) {
+						where := "followed by"
+						other := pool[p.j].ID
+						if pos == 1 {
+							where, other = "preceded by", pool[p.i].ID
+						}
+						ev.Violate(evidence.Violation{
+							Key:      fmt.Sprintf("%s|unrelated-declaration|%s", firstDiffChecker(m[pos], base[idx]), strings.TrimRight(pool[idx].ID, "0123456789")),
+							What:     "the diagnostics of a declaration change when an unrelated declaration is placed next to it",
+							Observed: fmt.Sprintf("%s %s %s\nonly then: %v\nonly alone: %v", pool[idx].ID, where, other, diffOnly(m[pos], base[idx]), diffOnly(base[idx], m[pos])),
+							Replay:   map[string]interface{}{"kind": "program", "path": "vpkg", "files": map[string]string{"f.go": "package vpkg\n\n" + pool[p.i].Src + "\n\n" + pool[p.j].Src + "\n"}},
+						})
+					}
+				}
+			}
+		}()
+	}
+	n := 0
+	for i := range pool {
+		for j := range pool {
+			if i == j || !ok[i] || !ok[j] {
+				continue
+			}
+			jobs <- pair{i, j}
+			n++
+		}
+	}
+	close(jobs)
+	wg.Wait()
+	ev.Set("scale_family_declarations", len(pool))
+	ev.Set("ordered_pairs_analysed", n)
+}
+
+func startsAt(starts []int, i int) int {
+	if i < 0 {
+		return 0
+	}
+	return starts[i]
 }
